@@ -63,6 +63,18 @@ def gen(ctx, seed, tier):
             for (o2, l2) in views:
                 if l1 == l2 or r.random() < 0.15:
                     cases.append("V %s %d %d %d %d" % (hexs, o1, l1, o2, l2))
+    # longer views (no length is special: word-sized strides, tails): two copies of n bytes in one buffer,
+    # equal or differing in exactly one position, at every position, also from an odd start offset
+    longv = []
+    for n in range(7, 41 if tier == "quick" else 73):
+        base = [r.randint(0, 255) for _ in range(n)]
+        for p in [None] + list(range(n)):
+            other = list(base)
+            if p is not None:
+                other[p] = (other[p] + r.choice([1, 0x20, 0x80, 255])) % 256
+            for pad in ((0,) if (tier == "quick" and n % 3) else (0, 1, 3)):
+                buf = [7] * pad + base + [9] * pad + other
+                longv.append("V %s %d %d %d %d" % ("".join("%02x" % x for x in buf), pad, n, pad + n + pad, n))
     # rewritten-bytes probe: same view values, bytes changed between two calls (stale-answer detection)
     probes = []
     for b in sorted(bufs):
@@ -85,7 +97,7 @@ def gen(ctx, seed, tier):
         rest = cases[645:]
         r.shuffle(rest)
         cases = head + rest[:8000]
-    return cases + probes
+    return cases + longv + probes
 
 
 def run_impl(ctx, cases):
